@@ -721,3 +721,61 @@ def c04_cases(thorough):
     preds = [pp for pp in p.defined() if pp not in ('Thr', 'Thr1')]
     dbs2 = dbs if not any(getattr(s, 'limit', None) is not None for s in stmts) else [d for d in dbs if all(len(set(v)) == len(v) for v in d.values())]
     yield Case('FUNCTOR-X', p, preds, schema='U4', dbs=dbs2, fact_dbs=[])
+
+
+# ======================================================================================== C18 order_by / limit
+def dbs_c18():
+  dom = [(a, b) for a in (1, 2, 3) for b in (1, 2)]
+  out = []
+  for n in range(0, 5):
+    for rows in itertools.combinations(dom, n):
+      for b in ([(1,), (2,)], [(2,), (3,), (3,)]):
+        # rows arrive in a scrambled order so that ORDER BY has something to do
+        rr = list(rows); rr = rr[1::2] + rr[0::2][::-1]
+        out.append({'A': rr, 'B': b})
+  return out
+
+
+C18_BODIES = [
+  ((x, y), (Lit('A', x, y),)),
+  ((x, y), (Lit('A', x, y), Lit('B', y))),
+  ((y, x), (Lit('A', x, y),)),
+  ((x, Bin('*', y, N(10))), (Lit('A', x, y),)),
+  ((x, y), (('or', ((Lit('A', x, y), Cmp('<', x, N(2))), (Lit('A', x, y), Cmp('>=', x, N(2))))),)),
+  ((x, y), (Lit('A', x, y), Not(Lit('B', x)))),
+  ((Bin('+', x, y), y), (Lit('A', x, y),)),
+  ((x, y), (Lit('A', x, z), Eq(y, Bin('-', N(5), z)))),
+]
+C18_ORDERS = [['col0', 'col1'], ['col0 desc', 'col1'], ['col1 desc', 'col0'], ['col1', 'col0 desc'], ['col0 desc', 'col1 desc']]
+
+
+def c18_cases(thorough):
+  dbs = dbs_c18()
+  Ks = [None, 0, 1, 2, 3, 5]
+  bodies = C18_BODIES if thorough else C18_BODIES[:5]
+  orders = C18_ORDERS if thorough else C18_ORDERS[:4]
+  for (head, body), order in itertools.product(bodies, orders):
+    for K in Ks:
+      for form in ('denot', 'ann'):
+        if form == 'denot':
+          P = [R('P', *head, body=body, order_by=order, limit=K)]
+          ol = None
+        else:
+          P = [R('P', *head, body=body), Ann('@OrderBy(P, %s);' % ', '.join('"%s"' % o for o in order))]
+          if K is not None: P.append(Ann('@Limit(P, %d);' % K))
+          ol = {'P': (order, K)}
+        uses = {
+          'final': ([], ['P'], True),
+          'plain': ([R('T', x, y, body=(Lit('P', x, y),))], ['T'], False),
+          'join': ([R('T', x, z, body=(Lit('P', x, y), Lit('B', z), Cmp('<=', z, x)))], ['T'], False),
+          'agg': ([R('T', x, Aggr('Sum', y), Aggr('Count', y), body=(Lit('P', x, y),), distinct=True)], ['T'], False),
+          'combine': ([R('T', z, s_, body=(Lit('B', z), Eq(s_, Comb('Sum', y, (Lit('P', x, y), Cmp('>=', x, z))))))], ['T'], False),
+          'negated': ([R('T', z, body=(Lit('B', z), Not(Lit('P', z, y))))], ['T'], False),
+          'functor': ([R('F', x, y, body=(Lit('P', x, y),)), R('A2', x, y, body=(Lit('A', y, x),)), Functor('G', 'F', (('A', 'A2'),))], ['G'], False),
+        }
+        for use, (extra, preds, ordered) in uses.items():
+          if use == 'functor' and (K is None or form == 'denot' and not thorough): continue
+          if use in ('negated', 'join') and not thorough and form == 'ann': continue
+          c = Case('ORD/' + use, Program(P + extra), preds, dbs=dbs, fact_dbs=[dbs[37]], info=dict(K=K, order=order, form=form, use=use, ordered=ordered))
+          c.ol = ol
+          yield c
